@@ -198,7 +198,7 @@ EXPORT int _vsnwprintf_s_chk(wchar_t *restrict dest, rsize_t dmax,
     /* check for ESNOSPC or some other error */
     if (unlikely(ret == -1)) {
         if (likely(dmax < 512)) { /* stacksize 0.5k */
-            static wchar_t tmp[512];
+            wchar_t tmp[512];
             if (unlikely(dmax == 1)) {
                 *dest = L'\0';
                 return 1;
